@@ -12,6 +12,8 @@ import (
 
 func init() { families["link"] = drvLink }
 
+var linkRxStream lorawan.PHYPayload
+
 type linkKeys struct {
 	app, enc, fk, sk lorawan.AES128Key
 	conf             uint32
@@ -176,17 +178,23 @@ func (c *ctx) linkCase(cs M) {
 		flip(micPos)
 	}
 	end["wire"] = bs(wire)
-	var r lorawan.PHYPayload
+	// the receiver's frame variable: a fresh one, or (every other case) ONE long-lived variable that held the frames of
+	// earlier cases - the way a receive loop re-uses its frame variable
+	var rFresh lorawan.PHYPayload
+	rp := &rFresh
+	if c.rnd.Intn(2) == 0 {
+		rp = &linkRxStream
+	}
 	verdict := "none"
 	sentHi := unle32(toIfaceInts(orig["fcnt"].([]int))) & 0xffff0000
 	for _, op := range strs(cs["rops"]) {
 		switch op {
 		case "Unmarshal":
 			ev := M{"ev": "unwire", "bytes": bs(wire)}
-			res, _ := observeFast(func() error { return r.UnmarshalBinary(append([]byte{}, wire...)) })
+			res, _ := observeFast(func() error { return rp.UnmarshalBinary(append([]byte{}, wire...)) })
 			ev["err"] = res
 			if res == "" {
-				ev["frame"] = phyToVal(&r)
+				ev["frame"] = phyToVal(rp)
 			}
 			c.emit(ev)
 			if res != "" {
@@ -199,7 +207,7 @@ func (c *ctx) linkCase(cs M) {
 			if dev == "fcnthigh" {
 				hi ^= 1 << uint(16+c.rnd.Intn(16))
 			}
-			r.MACPayload.(*lorawan.MACPayload).FHDR.FCnt |= hi
+			rp.MACPayload.(*lorawan.MACPayload).FHDR.FCnt |= hi
 		case "Validate":
 			q := micParams{ver, k.conf, k.txdr, k.txch, k.fk, k.sk}
 			switch dev {
@@ -220,7 +228,7 @@ func (c *ctx) linkCase(cs M) {
 			if up {
 				which = "up"
 			}
-			ev := validateEvent(which, &r, q, dev)
+			ev := validateEvent(which, rp, q, dev)
 			c.emit(ev)
 			{ // a receiver that validates for the other direction (same key material) must reject: the direction is authenticated
 				q2, other := q, "up"
@@ -230,7 +238,7 @@ func (c *ctx) linkCase(cs M) {
 				} else {
 					q2.fkey = q.skey
 				}
-				rc := valToPhy(cloneM(phyToVal(&r)).(M), false)
+				rc := valToPhy(cloneM(phyToVal(rp)).(M), false)
 				c.emit(validateEvent(other, rc, q2, "crossdir"))
 			}
 			if ev["err"] != "" {
@@ -245,20 +253,20 @@ func (c *ctx) linkCase(cs M) {
 			if dev == "foptskey" {
 				key = flipKey(key, c.rnd.Intn(128))
 			}
-			c.emit(methodEvent(&r, op, key))
+			c.emit(methodEvent(rp, op, key))
 		case "DecryptFRMPayload":
 			key := k.app
 			if dev == "frmkey" {
 				key = flipKey(key, c.rnd.Intn(128))
 			}
-			c.emit(methodEvent(&r, op, key))
+			c.emit(methodEvent(rp, op, key))
 		}
 	}
 	if ver == 0 { // a 1.0 receiver has no FOpts decryption step; it decodes the FOpts as they are
-		observeFast(func() error { return r.DecodeFOptsToMACCommands() })
+		observeFast(func() error { return rp.DecodeFOptsToMACCommands() })
 	}
 	end["verdict"] = verdict
-	end["final"] = phyToVal(&r)
+	end["final"] = phyToVal(rp)
 	c.emit(end)
 }
 
